@@ -372,10 +372,11 @@ impl RtpsReaderProxy {
                 message_writer.write_message(rtps_message.buffer(), self.unicast_locator_list());
 
                 self.set_highest_sent_seq_num(next_unsent_change_seq_num);
-            } else if let Some(cache_change) = changes
-                .iter()
-                .find(|cc| cc.sequence_number == next_unsent_change_seq_num)
-            {
+            } else if let Some(cache_change) = changes.iter().find(|cc| {
+                // Changes written before a VOLATILE reader was matched are not relevant for it
+                cc.sequence_number == next_unsent_change_seq_num
+                    && next_unsent_change_seq_num > self.first_relevant_sample_seq_num()
+            }) {
                 let number_of_fragments = cache_change
                     .data_value
                     .len()
